@@ -158,6 +158,12 @@ impl Property for C10 {
                 0 if inst_n < 4 && !complete => {
                     // clone: both copies continue independently
                     let c = Inst { key: insts[cur].key.clone(), punctured: insts[cur].punctured, n_punct: insts[cur].n_punct };
+                    if ctx.ch.chance(1, 3) {
+                        // the original goes away, a copy of the copy takes its place
+                        let orig = std::mem::replace(&mut insts[cur].key, c.key.clone());
+                        drop(orig);
+                        ctx.stats.probe("original_dropped_clones_live_on");
+                    }
                     insts.push(c);
                     ctx.stats.probe("clones");
                     ev!(ctx, "step {} clone {} -> {}", step, cur, insts.len() - 1);
